@@ -65,7 +65,7 @@ type Op struct {
 	Kind string `json:"kind"` // set del touch label expire error failcreate patchfail reject restart sleep drain
 	// set/del/touch: the custom resource ("node", "default", "group.g1", "group.g2")
 	CR      string `json:"cr,omitempty"`
-	Invalid bool   `json:"invalid,omitempty"` // set: spec fails validation
+	Invalid bool   `json:"invalid,omitempty"`  // set: spec fails validation
 	Recreat bool   `json:"recreate,omitempty"` // set: delete + create with a new UID
 	// label: the node's group ("" = none) and which label key carries it
 	Group string `json:"group,omitempty"`
@@ -79,10 +79,10 @@ type Op struct {
 }
 
 type Plan struct {
-	Ops     []Op `json:"ops"`
-	InitCR  []Op `json:"init,omitempty"` // resources existing before the agent starts
+	Ops     []Op   `json:"ops"`
+	InitCR  []Op   `json:"init,omitempty"` // resources existing before the agent starts
 	InitGrp string `json:"initgroup,omitempty"`
-	Heal    bool `json:"heal"` // final phase: faults stop, one more node event
+	Heal    bool   `json:"heal"` // final phase: faults stop, one more node event
 }
 
 func (p *Plan) NumOps() int { return len(p.Ops) }
@@ -500,7 +500,9 @@ func (w *world) run(p *Plan) {
 		srv.setNodeLabel(srv.group, 0)
 		w.drain(false, 6*time.Second)
 		w.drain(false, 6*time.Second)
-		w.checkHealed()
+		if len(w.res.Violations) == 0 {
+			w.checkHealed()
+		}
 	}
 	w.stopAgent()
 }
